@@ -45,6 +45,57 @@ def _one(prop, variant, base, tmp):
     return name, kind, "ok" if ok else "FALSE-ALARM", "" if ok else "; ".join(l for l in out.splitlines() if "FAIL" in l or "ANALYSIS" in l)[:400]
 
 
+VERIF = Path(__file__).resolve().parents[2]
+# behaviour-preserving patches of the typical-maintenance corpora that are known to alarm (DESIGN section 9.4), by path
+NEUTRAL_KNOWN_ALARMS = {
+    "neutral2/C13/patch_3.diff",     # `for k in d.keys(): ... d[k]` -> `items()` with a mutation of another object in between: E8 cannot prove it
+    "neutral3/C13/patch_8.diff",     # the same edit in omm.py
+}
+
+
+def _patch_variants(prop):
+    """Filed seeded changes written against this property (must fire) and the typical-maintenance patches written for it
+    (neutral2 / neutral3, must stay silent), as (name, kind, patch path)."""
+    import json
+    out = []
+    for d in sorted((VERIF / "seeded").glob("*")):
+        m = d / "meta.json"
+        if m.exists() and (d / "patch.diff").exists():
+            try:
+                if json.loads(m.read_text()).get("property") == prop:
+                    out.append((f"seed:{d.name}", "fire", d / "patch.diff"))
+            except ValueError:
+                pass
+    for corpus_dir in ("neutral2", "neutral3"):
+        for pth in sorted((VERIF / corpus_dir / prop).glob("patch_*.diff")):
+            rel = f"{corpus_dir}/{prop}/{pth.name}"
+            if rel not in NEUTRAL_KNOWN_ALARMS:
+                out.append((f"{corpus_dir}:{pth.name}", "silent", pth))
+    return out
+
+
+def _one_patch(prop, variant, base, tmp):
+    name, kind, patch = variant
+    root = Path(tmp) / (f"{prop}_" + name.replace(":", "_").replace("/", "_"))
+    shutil.copytree(base / "beyond", root / "beyond", ignore=shutil.ignore_patterns("__pycache__"))
+    r = subprocess.run(["git", "apply", str(patch)], cwd=str(root), capture_output=True, text=True)
+    if r.returncode:
+        r = subprocess.run(["patch", "-p1", "-s", "--no-backup-if-mismatch", "-i", str(patch)], cwd=str(root), capture_output=True, text=True)
+        if r.returncode:
+            shutil.rmtree(root, ignore_errors=True)
+            return name, kind, "STALE-PATCH", "does not apply to the current tree (skipped, not counted)"
+    env = dict(os.environ, BVSTATIC_REPO=str(root), BVSTATIC_EVIDENCE=str(root / "evidence"), BVSTATIC_NO_SELFTEST="1")
+    p = subprocess.run([sys.executable, "-B", "-m", "bvstatic", prop, "--tier", "quick"], cwd=str(VERIF), env=env, capture_output=True, text=True)
+    out = p.stdout
+    shutil.rmtree(root, ignore_errors=True)
+    fails = "; ".join(l.strip()[:160] for l in out.splitlines() if "FAIL" in l or "ANALYSIS" in l)[:400]
+    if kind == "fire":
+        ok = p.returncode == 1 and "VIOLATION" in out
+        return name, kind, "ok" if ok else "MISSED", "" if ok else f"rc={p.returncode}: {fails}"
+    ok = p.returncode == 0 and "VIOLATION" not in out
+    return name, kind, "ok" if ok else "FALSE-ALARM", "" if ok else fails
+
+
 def run(prop, jobs=16):
     from . import corpus
     variants = corpus.CORPUS.get(prop, [])
@@ -64,6 +115,21 @@ def run(prop, jobs=16):
                 print(f"  SELFTEST {verdict} {prop}/{name} ({kind}) {msg}")
         n_fire = sum(1 for v in variants if v[1] == "fire")
         print(f"[{prop}] selftest: {len(variants)} variants ({n_fire} mutations must fire, {len(variants) - n_fire} refactors must stay silent): {len(variants) - bad} ok, {bad} bad")
+        # replay of the filed seeded changes and of the typical-maintenance patches written for this property
+        pv = _patch_variants(prop)
+        with ThreadPoolExecutor(max_workers=jobs) as ex:
+            presults = list(ex.map(lambda v: _one_patch(prop, v, base, tmp), pv))
+        pbad = 0
+        for name, kind, verdict, msg in presults:
+            if verdict not in ("ok", "STALE-PATCH"):
+                pbad += 1
+                print(f"  SELFTEST {verdict} {prop}/{name} ({kind}) {msg}")
+        stale = sum(1 for r in presults if r[2] == "STALE-PATCH")
+        print(f"[{prop}] replay: {sum(1 for v in pv if v[1] == 'fire')} seeded changes must fire, {sum(1 for v in pv if v[1] == 'silent')} maintenance patches must stay silent: "
+              f"{len(pv) - pbad - stale} ok, {pbad} bad, {stale} stale")
+        bad += pbad
+        results = results + presults
+        variants = variants + [(v[0], v[1], None, None) for v in pv]
     finally:
         shutil.rmtree(tmp, ignore_errors=True)
     _annotate(prop, variants, results, bad)
